@@ -2,7 +2,8 @@
    D <blocks>   -> JSON of `denote`              blocks: (10 k inl..) (11 (inl..)..) (12 ((p..) (inl..) [(inl..)])..) (13 ((hdr inl..)..)..) (14 (inl..)..)
                                                  inl: (0 w) (1 inl..) (2 inl..) (3 t inl..) (4 u inl..) (5 inl..)
    S <items>    -> "<parse_sections> # <nest>"   items: (1 k c) heading, (0 x) block; output as s-expressions
-   L <lines>    -> JSON of den_list              lines: ((p..) w) | ((p..) w d)   (d = word after the colon) *)
+   L <lines>    -> JSON of den_list              lines: ((p..) w) | ((p..) w d)   (d = word after the colon)
+   A <lines>    -> JSON of analyze_model (the loop model of ParseLines.analyze, C02/ModelLines.v) | FUEL | ATTRERROR *)
 open C02_model
 type sx = I of int | L of sx list
 let rec pos_of_int i = if i = 1 then XH else if i land 1 = 1 then XI (pos_of_int (i lsr 1)) else XO (pos_of_int (i lsr 1))
@@ -79,6 +80,16 @@ let () =
          | L [L p; I w; I d] -> ((pre p, [Leaf (n_of_int w, false, false)]), Some [Leaf (n_of_int d, false, false)])
          | _ -> failwith "line") sx in
        print_string (trees_json (den_list (line_fuel lines) lines) ^ "\n")
+     | 'A' ->
+       let pre p = List.map (function I c -> n_of_int c | _ -> failwith "p") p in
+       let lines = List.map (function
+         | L [L p; I w] -> ((pre p, [Leaf (n_of_int w, false, false)]), None)
+         | L [L p; I w; I d] -> ((pre p, [Leaf (n_of_int w, false, false)]), Some [Leaf (n_of_int d, false, false)])
+         | _ -> failwith "line") sx in
+       (match analyze_model (analyze_fuel lines) lines with
+        | LOk ts -> print_string (trees_json ts ^ "\n")
+        | LFuel -> print_string "FUEL\n"
+        | LAttrError -> print_string "ATTRERROR\n")
      | _ -> print_string "ERR\n"
      with Failure m -> print_string ("ERR " ^ m ^ "\n"))
   done with End_of_file -> ()
